@@ -22,6 +22,8 @@ def run(ctx):
     lib_tree.inverse_pairs(ctx, P)
     lib_tree.transitions(ctx, P)
     lib_tree.edge_call_args(ctx, P)
+    from . import lib_kind2
+    lib_kind2.guard_nan(ctx, P)
     funcs = {"tsk_tree_seek", "tsk_tree_seek_index", "tsk_tree_check_node", "tsk_tree_set_tracked_samples"}
     seen = lib_guards.analyse(ctx, P, funcs=funcs)
     lib_guards.presence(ctx, seen, funcs=funcs, P=P)
